@@ -1,7 +1,10 @@
 """C06 — fixed-width integer (and float/complex) arithmetic is exact.
 
-Proof: GV.Props.C06 (emitted JS scheme per (type, operator) = BitVec spec for all operand values; canonical
-results; exact doubles; 64-bit constructor / $mul64 / shifts / $div64 / $flatten64).
+Proof: GV.Props.C06 (emitted JS scheme per (type, operator) = BitVec spec for all operand values, full strength for every
+binary/unary operator, shift (all counts >= 0), comparison and conversion; canonical results; exact doubles; 64-bit constructor,
+inline + - unary -, $mul64, the three shift helpers for every count, $flatten64; $div64: panic condition, canonical result and
+termination of the normalisation loop — its quotient/remainder values are tied, not proved).
+The model mirrors the tree AFTER the fixes fixes/C06-{unary-minus,quo-fixup,rem-fixup,shr-const-count}.patch.
 Ties: (A) the real prelude helpers under Node vs the Lean model vs the Lean BitVec spec on a boundary grid plus
 seeded random 64-bit patterns; (B) compiled table-driven Go programs (one unit per (type, operator, operand shape))
 GopherJS(Node) vs Lean scheme model vs Lean spec, with native Go validating the spec."""
@@ -19,7 +22,8 @@ THEOREMS = ["valOf_bv", "bv_valOf", "add_correct", "sub_correct", "mul_correct",
             "shr_const_count_counterexample_v0",
             "exact_doubles", "exact_doubles_plain_mul_fails",
             "mk64_canon", "mk64_value", "add64_correct", "sub64_correct", "neg64_correct", "valOf_toBV", "flatten64_exact",
-            "mul64_correct", "mul64_scheme", "specShift_clamp"]
+            "mul64_correct", "mul64_scheme", "shift64_correct", "div64_panic_iff", "div64_canon", "div64_norm_terminates",
+            "specShift_clamp"]
 
 SMALL = {"int8": (8, True), "int16": (16, True), "int32": (32, True), "int": (32, True),
          "uint8": (8, False), "uint16": (16, False), "uint32": (32, False), "uint": (32, False), "uintptr": (32, False)}
@@ -853,7 +857,10 @@ def run(tier, seed):
     chk.assumptions = ["JS numbers are modelled by mathematical integers; IEEE exactness below 2^53 is the proved side condition exact_doubles",
                        "x / y on doubles: the integer part of the rounded quotient equals the truncated exact quotient for |x|,|y| < 2^32 (argued, sampled)",
                        "V8 implements ToInt32/ToUint32/shift/bitwise/Math.imul per ECMAScript",
-                       "native Go has 64-bit int/uint/uintptr: those types are checked against the Lean spec only"]
+                       "native Go has 64-bit int/uint/uintptr: those types are checked against the Lean spec only",
+                       "documented permitted difference (C01): a shift by a negative count does not panic; such cases are held to the "
+                       "Lean model (shift_negative_count_documented) instead of the Go spec",
+                       "$flatten64 of a 64-bit shift count >= 2^53 is inexact; only its comparisons with 0, 32, 64 matter (monotone rounding)"]
     t0 = time.time()
     chk.proof = C.check_proofs("C06", THEOREMS, tier)
     chk.extra["proof_wall_s"] = round(time.time() - t0, 1)
